@@ -27,7 +27,7 @@ Definition file_packs (f : ifile) : list N := map fst f.
 Definition max_u32 : N := 4294967295.
 Definition blob_fits (b : blob) : bool :=
   let '(_, _, o, l, u) := b in (o <=? max_u32) && (l <=? max_u32) && (u <=? max_u32).
-(* Index.store panics when a value does not fit 32 bits *)
+(* DecodeIndex rejects (error) a file with a value that does not fit 32 bits *)
 Definition file_fits (f : ifile) : bool := forallb (fun pb => forallb blob_fits (snd pb)) f.
 
 (* one Index: entries (all types), packs array, ids of the merged files *)
@@ -36,6 +36,9 @@ Definition empty_index : index := mkI [] [] [].
 
 (* DecodeIndex *)
 Definition decode (fid : N) (f : ifile) : index := mkI (flat f) (file_packs f) [fid].
+
+Definition decode_checked (fid : N) (f : ifile) : option index :=
+  if file_fits f then Some (decode fid f) else None.
 
 Definition has_identical (e : entry) (l : list entry) : bool := existsb (entry_eqb e) l.
 (* Index.merge: packs appended first; entries of idx2 added unless an identical entry is present
@@ -61,6 +64,10 @@ Definition to_load (mi : index) (listing : list N) : list N :=
 (* MasterIndex.Load: Insert each missing file, then MergeFinalIndexes *)
 Definition load (r : repo) (mi : index) (listing : list N) : index :=
   fold_left (fun acc fid => merge acc (decode fid (content r fid))) (to_load mi listing) (prepare mi listing).
+
+(* Load with the decoder's rejection: an oversized file among those to be merged aborts the load *)
+Definition load_checked (r : repo) (mi : index) (listing : list N) : option index :=
+  if forallb (fun fid => file_fits (content r fid)) (to_load mi listing) then Some (load r mi listing) else None.
 
 Definition load_fresh (r : repo) (listing : list N) : index := load r empty_index listing.
 Definition run (r : repo) (hist : list (list N)) : index := fold_left (load r) hist empty_index.
@@ -114,7 +121,7 @@ Inductive case :=
 | CCodec (ents : list entry) (decoded : list entry) (decoded_packs : list N)
 (* an authenticated index file holding a value that does not fit 32 bits, read by the real CLI in a
    subprocess: the command must report an error, not die from a panic *)
-| CReject (file_fits_u32 : bool) (crashed : bool).
+| CReject (f : ifile) (crashed : bool) (errored : bool).
 
 Definition step_ok (r : repo) (listing : list N) (o : obs) : bool :=
   nodup_b (o_vals o) && same_set (o_vals o) (union_of r listing)
@@ -126,7 +133,7 @@ Definition check_C08 (c : case) : bool :=
   match c with
   | CHist r steps => forallb (fun s => step_ok r (fst s) (snd s)) steps
   | CCodec ents decoded dpacks => same_multiset ents decoded && same_nset dpacks (map e_pack ents)
-  | CReject _ crashed => negb crashed
+  | CReject f crashed errored => negb crashed && (file_fits f || errored)
   end.
 
 Fixpoint model_steps (r : repo) (mi : index) (steps : list (list N * obs)) : bool :=
@@ -140,15 +147,15 @@ Fixpoint model_steps (r : repo) (mi : index) (steps : list (list N * obs)) : boo
   end.
 
 (* 0 ok; 1 model <> implementation; 2 loaded index differs from the union of the index files present
-   (or incremental <> fresh, or Lookup/LookupSize disagree with the entries); 3 encode/decode loses entries; 4 the CLI crashed (panic) on an index file with an oversized value *)
+   (or incremental <> fresh, or Lookup/LookupSize disagree with the entries); 3 encode/decode loses entries; 4 the CLI crashed (panic) on, or silently accepted, an index file with an oversized value *)
 Definition check_case (c : case) : nat :=
   if check_C08 c then
     match c with
     | CHist r steps => if model_steps r empty_index steps then 0 else 1
     | CCodec ents decoded dpacks =>
       if same_multiset (flat (encode ents)) decoded then 0 else 1
-    | CReject _ _ => 0
+    | CReject f _ errored => if Bool.eqb errored (match decode_checked 0 f with None => true | Some _ => false end) then 0 else 1
     end
-  else match c with CHist _ _ => 2 | CCodec _ _ _ => 3 | CReject _ _ => 4 end.
+  else match c with CHist _ _ => 2 | CCodec _ _ _ => 3 | CReject _ _ _ => 4 end.
 
 End C08m.
